@@ -4003,6 +4003,11 @@ def skipping_module(
     save_import_context = manager.errors.import_context()
     manager.errors.set_import_context(caller_state.import_context)
     manager.errors.set_file(caller_state.xpath, caller_state.id, manager.options)
+    manager.errors.set_file_ignored_lines(
+        caller_state.xpath,
+        caller_state.tree.ignored_lines if caller_state.tree else caller_state.imports_ignored,
+        caller_state.ignore_all or caller_state.options.ignore_errors,
+    )
     manager.error(line, f'Import of "{id}" ignored')
     manager.note(
         line, "(Using --follow-imports=error, module not passed on command line)", only_once=True
